@@ -668,3 +668,124 @@ pub proof fn thm_annual(a: Run, b: Run, lm: bool, idx: Seq<int>, cs: real, ct: r
         }
     }
 }
+
+// ------------------------------------------------------------------------------------------------ the same layouts over sequences of reals
+pub open spec fn lay_rel_r(w: Seq<real>, w2: Seq<real>, idx: Seq<int>, cs: real) -> bool {
+    w2.len() == idx.len() && forall|i2: int| 0 <= i2 < idx.len() ==> 0 <= #[trigger] idx[i2] < w.len() && w2[i2] == cs * w[idx[i2]]
+}
+pub open spec fn lay_sums_r(idx: Seq<int>, n: int, cs: real, ct: real) -> bool {
+    forall|w: Seq<real>, w2: Seq<real>| w.len() == n && #[trigger] lay_rel_r(w, w2, idx, cs) ==> sumr(w2) == ct * sumr(w)
+}
+pub proof fn lemma_sumr_scale(v: Seq<real>, v2: Seq<real>, c: real)
+    requires v.len() == v2.len(), forall|i: int| 0 <= i < v.len() ==> #[trigger] v2[i] == c * v[i],
+    ensures sumr(v2) == c * sumr(v),
+    decreases v.len(),
+{
+    if v.len() == 0 { lemma_mul0(c); }
+    else {
+        assert forall|i: int| 0 <= i < v.drop_last().len() implies #[trigger] v2.drop_last()[i] == c * v.drop_last()[i] by {
+            assert(v2.drop_last()[i] == v2[i] && v.drop_last()[i] == v[i]);
+        }
+        lemma_sumr_scale(v.drop_last(), v2.drop_last(), c);
+        assert(v2[v.len() - 1] == c * v[v.len() - 1]);
+        lemma_dist2(c, sumr(v.drop_last()), v.last());
+    }
+}
+pub proof fn lemma_lay_same_r(n: int, c: real)
+    requires n >= 0,
+    ensures lay_sums_r(idx_ident(n), n, c, c),
+{
+    let idx = idx_ident(n);
+    assert forall|w: Seq<real>, w2: Seq<real>| w.len() == n && #[trigger] lay_rel_r(w, w2, idx, c) implies sumr(w2) == c * sumr(w) by {
+        assert forall|i: int| 0 <= i < w.len() implies #[trigger] w2[i] == c * w[i] by { assert(idx[i] == i); }
+        lemma_sumr_scale(w, w2, c);
+    }
+}
+pub proof fn lemma_lay_perm_r(idx: Seq<int>, n: int)
+    requires is_perm(idx, n),
+    ensures lay_sums_r(idx, n, 1real, 1real),
+{
+    assert forall|w: Seq<real>, w2: Seq<real>| w.len() == n && #[trigger] lay_rel_r(w, w2, idx, 1real) implies sumr(w2) == 1real * sumr(w) by {
+        lemma_sumr_reindex(w, idx);
+        assert(w2 =~= Seq::new(w.len(), |i: int| w[idx[i]])) by {
+            assert forall|i: int| 0 <= i < n implies w2[i] == w[idx[i]] by {
+                assert(0 <= idx[i] < n && w2[i] == 1real * w[idx[i]]);
+                assert(1real * w[idx[i]] == w[idx[i]]) by(nonlinear_arith);
+            }
+        }
+        assert(1real * sumr(w) == sumr(w)) by(nonlinear_arith);
+    }
+}
+pub proof fn lemma_sumr_subdiv(v: Seq<real>, v2: Seq<real>, m: int)
+    requires m > 0, v2.len() == v.len() * m,
+             forall|i2: int| 0 <= i2 < v2.len() ==> #[trigger] v2[i2] == (1real / (m as real)) * v[i2 / m],
+    ensures sumr(v2) == sumr(v),
+    decreases v.len(),
+{
+    let n = v.len() as int;
+    if n == 0 { assert(v2.len() == 0) by(nonlinear_arith) requires v2.len() == v.len() * m, v.len() == 0; }
+    else {
+        let cs = 1real / (m as real);
+        let k = (n - 1) * m;
+        assert(n * m == k + m) by(nonlinear_arith) requires k == (n - 1) * m;
+        assert(k >= 0) by(nonlinear_arith) requires k == (n - 1) * m, n >= 1, m > 0;
+        let head = v2.take(k); let tail = v2.skip(k);
+        assert(v2 =~= head + tail);
+        assert(head.len() == v.drop_last().len() * m);
+        assert forall|i2: int| 0 <= i2 < head.len() implies #[trigger] head[i2] == cs * v.drop_last()[i2 / m] by {
+            assert(head[i2] == v2[i2]);
+            assert(0 <= i2 / m < n - 1) by(nonlinear_arith) requires 0 <= i2 < (n - 1) * m, m > 0;
+            assert(v.drop_last()[i2 / m] == v[i2 / m]);
+        }
+        lemma_sumr_subdiv(v.drop_last(), head, m);
+        let x = v.last();
+        assert(tail.len() == m);
+        assert forall|j: int| 0 <= j < m implies #[trigger] tail[j] == cs * x by {
+            assert(tail[j] == v2[k + j]);
+            assert((k + j) / m == n - 1) by(nonlinear_arith) requires k == (n - 1) * m, 0 <= j < m, m > 0;
+        }
+        assert(tail =~= Seq::new(m as nat, |i: int| cs * x));
+        lemma_sumr_const(cs * x, m as nat);
+        assert((m as real) * (cs * x) == x) by(nonlinear_arith) requires cs == 1real / (m as real), m > 0;
+        lemma_sumr_concat(head, tail);
+    }
+}
+pub proof fn lemma_lay_subdiv_r(n: int, m: int)
+    requires n >= 0, m > 0,
+    ensures lay_sums_r(idx_subdiv(n, m), n, 1real / (m as real), 1real),
+{
+    let idx = idx_subdiv(n, m);
+    assert(n * m >= 0) by(nonlinear_arith) requires n >= 0, m > 0;
+    assert forall|w: Seq<real>, w2: Seq<real>| w.len() == n && #[trigger] lay_rel_r(w, w2, idx, 1real / (m as real)) implies sumr(w2) == 1real * sumr(w) by {
+        assert forall|i2: int| 0 <= i2 < w2.len() implies #[trigger] w2[i2] == (1real / (m as real)) * w[i2 / m] by { assert(idx[i2] == i2 / m); }
+        lemma_sumr_subdiv(w, w2, m);
+        assert(1real * sumr(w) == sumr(w)) by(nonlinear_arith);
+    }
+}
+/// annual classified sums (acc_an) under a layout
+pub open spec fn acc_seq(cs: Seq<Energy>, k: Sel, n: int) -> Seq<real> { Seq::new(n as nat, |i: int| acc(cs, k, i)) }
+pub proof fn lemma_acc_an_sumr(cs: Seq<Energy>, k: Sel, n: int)
+    requires n >= 0,
+    ensures acc_an(cs, k, n) == sumr(acc_seq(cs, k, n)),
+    decreases n,
+{
+    if n > 0 {
+        lemma_acc_an_sumr(cs, k, n - 1);
+        assert(acc_seq(cs, k, n).drop_last() =~= acc_seq(cs, k, n - 1));
+    }
+}
+pub proof fn lemma_acc_an_rel(cs: Seq<Energy>, cs2: Seq<Energy>, k: Sel, idx: Seq<int>, n: int, c: real, ct: real)
+    requires n >= 0, lay_sums_r(idx, n, c, ct),
+             forall|i2: int| 0 <= i2 < idx.len() ==> 0 <= #[trigger] idx[i2] < n && acc_rel(cs, cs2, idx[i2], i2, c),
+    ensures acc_an(cs2, k, idx.len() as int) == ct * acc_an(cs, k, n),
+{
+    let n2 = idx.len() as int;
+    lemma_acc_an_sumr(cs, k, n); lemma_acc_an_sumr(cs2, k, n2);
+    let w = acc_seq(cs, k, n); let w2 = acc_seq(cs2, k, n2);
+    assert(lay_rel_r(w, w2, idx, c)) by {
+        assert forall|i2: int| 0 <= i2 < idx.len() implies 0 <= #[trigger] idx[i2] < w.len() && w2[i2] == c * w[idx[i2]] by {
+            assert(acc_rel(cs, cs2, idx[i2], i2, c));
+            assert(acc(cs2, k, i2) == c * acc(cs, k, idx[i2]));
+        }
+    }
+}
